@@ -5,3 +5,4 @@ import Dsi.Props.CodesA
 import Dsi.Props.CodesB
 import Dsi.Props.Writer
 import Dsi.Props.Reader
+import Dsi.Props.BitReader
